@@ -146,6 +146,33 @@ pub fn check(bc: &BuildCase, fam: &str, obs: &mut Obs) -> Result<(), Fail> {
             }
         }
     }
+    // the crate's own (public, doc-hidden) masking entry point applied to the FINISHED symbols: masking symbol k once
+    // more with pattern k must toggle exactly the ISO pattern on the encoding region (= give the common un-masked
+    // matrix there) and leave every other module alone
+    if bc.hash() % 2 == 0 {
+        for k in 0..8usize {
+            let mut q = (*built[k].qr).clone();
+            crate::engine::catch(|| fast_qr::datamasking::mask(&mut q, crate::fq::f_mask(k as u8)))
+                .map_err(|p| Fail { sig: crate::engine::panic_sig(&p), msg: format!("datamasking::mask on a finished symbol panicked: {}", p) })?;
+            for r in 0..n {
+                for c in 0..n {
+                    let i = r * n + c;
+                    let got = q.data[i].value();
+                    let want = if g.region[i] == Region::Encoding { unmasked[0][i] } else { vals[k][i] };
+                    if got != want {
+                        return fail(
+                            "mask_on_finished_symbol",
+                            format!(
+                                "v{}: datamasking::mask(symbol built with mask {}, pattern {}) leaves {} module (row {}, col {}) {} - expected {} ({:?})",
+                                v, k, k, g.region[i].name(), r, c, if got { "dark" } else { "light" }, if want { "dark" } else { "light" }, bc
+                            ),
+                        );
+                    }
+                }
+            }
+        }
+        obs.label("crate_mask_on_finished_symbols");
+    }
     obs.nontrivial(bc.hash());
     obs.sample(&format!("band:{}", crate::gens::version_band(v)), || {
         let mut s = bc.to_sample();
